@@ -368,6 +368,33 @@ def r4_teardown(ctx):
     ctx.check(not bad, 'no-reorder-teardown', 'the module sequence is not reordered or pruned during tear-down', f.where(), [x.name for x in bad])
 
 
+def _path_presence_test(P, tree, depth=4):
+    """does the boolean `tree` (a call, possibly handing a closure to an accessor) compare ObjectPaths while looking through the module
+    sequence?  (`tree.contains(path)` = `modules.iter().any(|n| n.path == *path)` reached through helpers / closures)"""
+    todo = []
+    for x in walk(tree):
+        if x[0] == 'agg' and str(x[1]).startswith('closure:'):
+            todo.append(str(x[1])[len('closure:'):])
+        elif x[0] == 'call' and x[1] in P.fns and x[1].startswith('des::net::'):
+            todo.append(x[1])
+    seen = set()
+    for _ in range(depth):
+        nxt = []
+        for k in todo:
+            g = P.fns.get(k)
+            if g is None or k in seen:
+                continue
+            seen.add(k)
+            for c in g.calls():
+                if c.name.split('::')[-1] in ('eq', 'ne') and any('ObjectPath' in (t or '') for t in (c.argtys or [])):
+                    return True
+                if c.name in P.fns and c.name.startswith('des::net::'):
+                    nxt.append(c.name)
+            nxt += [h.key for h in P.closures_of(g)]
+        todo = nxt
+    return False
+
+
 def r5_builder_rejections(ctx):
     ctx.set_rule('C12.R5')
     f = ctx.anchor(NR + 'SimBuilder::raw')
@@ -379,6 +406,9 @@ def r5_builder_rejections(ctx):
     for s in child + alone:
         atoms = [a for _, a in f.guard_atoms(s.b)]
         nodup = any((option_state(a) or ('', None))[0] == 'none' and any(x[0] == 'call' and x[1].endswith('::get') for x in walk(option_state(a)[1])) for a in atoms)
+        if not nodup:
+            # predicate form: `!tree.contains(&path)` (a presence test over the module sequence that compares paths)
+            nodup = any(a[0] == 'bool' and a[2] is False and a[1][0] == 'call' and _path_presence_test(ctx.P, a[1]) for a in atoms)
         ctx.check(nodup, 'duplicate-rejected', 'a node is only created after the duplicate-path check passed', s.where(), [show_atom(a) for a in atoms][:4])
     for s in child:
         atoms = [a for _, a in f.guard_atoms(s.b)]
